@@ -88,6 +88,9 @@ pub fn entries() -> &'static Vec<Entry> {
             entry::<RegionSut<TupCollapse>>(),
             entry::<RegionSut<ColsCollapseStr>>(),
             entry::<RegionSut<SliceCollapseStr>>(),
+            entry::<RegionSut<OptVecU32>>(),
+            entry::<RegionSut<ResVecVec>>(),
+            entry::<RegionSut<SliceVecU32>>(),
             entry::<RegionSut<HuffU8>>(),
             entry::<RegionSut<HuffU16>>(),
             entry::<RegionSut<Codec>>(),
